@@ -486,6 +486,22 @@ Proof.
   split; [exact Hv | exact Ho].
 Qed.
 
+(* the constructor of a resumed fit: with the history lists created first it always succeeds and its
+   sanity evaluation is an evaluation like any other (recorded when successful and asked for) *)
+Lemma construct_early I (m : @model V) (L : @lik V) (lp : @lprior V) fl r h pbuf :
+  exists st, construct N I m L lp fl r false (fresh h) pbuf = Some st /\
+             heap st = h /\
+             view st = spec_history N m L fl [buf h pbuf] \/ (ll_intact I L fl -> False).
+Proof.
+  exists (fst (step N I m L lp fl r (fresh h) (OCall pbuf))).
+  destruct (classic_ll_intact_dec I L fl) as [Hll|Hn]; [left|right; exact Hn].
+  split; [reflexivity|]. split; [rewrite step_heap; reflexivity|].
+  pose proof (run_history_plain N I m L lp fl r [OCall pbuf] (fresh h) Hll) as H.
+  unfold run in H. simpl run_with in H.
+  destruct (step N I m L lp fl r (fresh h) (OCall pbuf)) as [st1 out] eqn:Es. simpl fst in *.
+  rewrite H; [reflexivity | right; reflexivity | intros b ll []].
+Qed.
+
 (* all in one: what a successful / unsuccessful plain call returns *)
 Lemma call_value_spec (m : @model V) (L : @lik V) (lp : @lprior V) fl r vec :
   length vec = prior_count m ->
